@@ -22,6 +22,7 @@ import (
 	"github.com/Oneledger/protocol/data/governance"
 	"github.com/Oneledger/protocol/data/keys"
 	"github.com/Oneledger/protocol/data/ons"
+	"github.com/Oneledger/protocol/utils"
 )
 
 func bigAmt(s string) balance.Amount {
@@ -51,6 +52,7 @@ type World struct {
 	Users []Key     // funded accounts
 	Extra []ValSpec // candidate validators not in genesis (funded stake accounts)
 	Poor  []Key     // accounts holding 0.002 OLT: enough for a fee or two, not for what they try
+	Eth   []c17EthKey // funded eth-secp accounts (OLVM senders)
 }
 
 func NewWorld(nvals, nusers, nextra int) *World {
@@ -67,6 +69,9 @@ func NewWorld(nvals, nusers, nextra int) *World {
 	for i := 0; i < 2; i++ {
 		w.Poor = append(w.Poor, seedKey(byte(130+i)))
 	}
+	for i := 0; i < 3; i++ {
+		w.Eth = append(w.Eth, c17Key(byte(40+i)))
+	}
 	return w
 }
 
@@ -82,7 +87,17 @@ func (w *World) Genesis() *GenesisSpec {
 	for _, v := range w.Extra {
 		g.Funded = append(g.Funded, v.Stake.Addr)
 	}
+	for _, k := range w.Eth {
+		g.Funded = append(g.Funded, k.Addr)
+	}
 	return g
+}
+
+// OLVM transaction of an eth-secp account on the harness chain ("verif-chain")
+func txOLVM(k c17EthKey, to *keys.Address, nonce uint64, value string, gas int64, data []byte) []byte {
+	chain := utils.HashToBigInt("verif-chain")
+	v, _ := new(big.Int).SetString(value, 10)
+	return c17TxOLVM(k, to, nonce, v, big.NewInt(1000000000), gas, data, chain, chain, fmt.Sprint(nonce), 0)
 }
 
 // gas limit put into generated transactions (the generator lowers it now and then so that the
@@ -253,6 +268,7 @@ func genHistory(r *rand.Rand, w *World, nblocks int, txPerBlock int) *History {
 		return val()
 	}
 	small := func() string { return amountsSmall[r.Intn(len(amountsSmall))] }
+	ethNonce := make([]uint64, len(w.Eth))
 	for b := 0; b < nblocks; b++ {
 		height := int64(b + 1)
 		in := BlockIn{Absent: map[int]bool{}}
@@ -269,7 +285,36 @@ func genHistory(r *rand.Rand, w *World, nblocks int, txPerBlock int) *History {
 			if lowGas {
 				GAS = 100
 			}
-			switch k := r.Intn(35); k {
+			switch k := r.Intn(39); k {
+			case 35, 36: // OLVM plain transfer with the expected nonce
+				if len(w.Eth) == 0 {
+					continue
+				}
+				ei := r.Intn(len(w.Eth))
+				to := user().Addr
+				if r.Intn(2) == 0 {
+					to = w.Eth[r.Intn(len(w.Eth))].Addr
+				}
+				tx, d = txOLVM(w.Eth[ei], &to, ethNonce[ei], small()+"000000000", 30000, nil), "olvm transfer"
+				ethNonce[ei]++
+			case 37: // OLVM with a nonce ahead of the account: passes Validate, fails its pre-check
+				if len(w.Eth) == 0 {
+					continue
+				}
+				ei := r.Intn(len(w.Eth))
+				to := user().Addr
+				tx, d = txOLVM(w.Eth[ei], &to, ethNonce[ei]+1+uint64(r.Intn(3)), "1000000000", 30000, nil), "olvmgap nonce ahead"
+			case 38: // OLVM contract creation (init code that stores a value; reverting init now and then)
+				if len(w.Eth) == 0 {
+					continue
+				}
+				ei := r.Intn(len(w.Eth))
+				init := c17InitStore
+				if r.Intn(3) == 0 {
+					init = c17InitRevert
+				}
+				tx, d = txOLVM(w.Eth[ei], nil, ethNonce[ei], "0", 200000, init), "olvmcreate"
+				ethNonce[ei]++
 			case 34:
 				if len(w.Poor) == 0 {
 					continue
